@@ -175,13 +175,11 @@ Theorem C14_PJR_cardinal_relax : forall I V P score r r' W,
 Proof. exact PJR_card_weaken. Qed.
 Print Assumptions C14_PJR_cardinal_relax.
 
-(* STRETCH (S in DESIGN.md section 4, C14), NOT PROVED and not replaced by anything bounded:
-     mes_cost_EJR_any : the Equal Shares spec of C02 (Spec/MesSpec.v) with cost utilities satisfies
-                        EJR_app ... UpToAny;
-     mes_card_EJR_one : ... with cardinality utilities satisfies EJR_app ... UpToOne.
-   The Equal Shares link of the property is covered by the correspondence check only (failure codes 60/61:
-   the implementation's Equal Shares outcomes are run through the implementation's checkers and through the
-   verified oracle). *)
+(* The Equal Shares link of the property (S in DESIGN.md section 4, C14) is PROVED in Props/C14mes.v:
+   mes_cost_EJR_any (Cost_Sat: EJR up to any project, positive costs), mes_card_EJR / mes_card_EJR_one
+   (Cardinality_Sat: plain EJR, hence up to one), for the model's resolute and iterated entry points, any
+   multiplicities, tie-breaking key and enumeration order, empty initial allocation; and the module's own
+   checker model returns true on those outcomes. *)
 
 (* on a case that passes the hypotheses check the model's answers ARE the oracle's answers *)
 Theorem C14_model_eq_oracle_on_cases : forall c m W,
